@@ -167,8 +167,25 @@ def main():
             raise RuntimeError("unexpected verdict on whole grounded classes: " + v)
         seeds = [s_ for c in classes if len(c) >= 2 and not (set(c) & G) and not (set(c) & D) for s_ in c]
         cls_rows.append("(%d, %s, %s, %s)" % (k, coq_list(seeds), coq_list(coq_list(c) for c in classes), "true" if v is not None else "false"))
-    v = """From Coq Require Import List Arith Bool.
-From Crusta Require Import Spec.AF Spec.SemFacts Spec.Theory Proofs.PolyOracleDefs Proofs.PolyClassesDefs.
+    # ---- unit propagation of checks/C10.py (_propagate) against Proofs/PolyCnfDefs.up_run: random small CNFs (many unit
+    # and binary clauses, so that propagation chains, conflicts, models and open ends all occur) and partial assignments
+    import C10 as c10
+    up_rows, up_hist = [], {"conflict": 0, "model": 0, "open": 0}
+    rng3 = random.Random(seed + 2)
+    for _ in range(count * 6):
+        nv = rng3.randint(1, 7)
+        cls = []
+        for _ in range(rng3.randint(0, 9)):
+            k = rng3.choice([1, 2, 2, 2, 3, 3, 4])
+            cls.append([rng3.choice([-1, 1]) * rng3.randint(1, nv) for _ in range(k)])
+        asg = {v_: rng3.random() < 0.5 for v_ in range(1, nv + 1) if rng3.random() < 0.4}
+        r = c10._propagate(cls, asg)
+        up_hist[r] += 1
+        up_rows.append("(%s, %s, %d)" % (coq_list(coq_list("(%d)%%Z" % l for l in c) for c in cls),
+                                          coq_list("(%d, %s)" % (v_, "true" if b else "false") for v_, b in sorted(asg.items())),
+                                          {"conflict": 0, "model": 1, "open": 2}[r]))
+    v = """From Coq Require Import List Arith Bool ZArith.
+From Crusta Require Import Spec.AF Spec.SemFacts Spec.Theory Sat.Cnf Proofs.PolyOracleDefs Proofs.PolyClassesDefs Proofs.PolyCnfDefs.
 Import ListNotations.
 Definition fws : list (nat * list (nat * nat)) := %s.
 Definition fw (k : nat) : af := let p := nth k fws (0, []) in compact (fst p) (snd p).
@@ -189,19 +206,22 @@ Definition prop_bad := filter (fun k => let F := fw k in let (G, D) := prop_grou
 Definition cls_rows : list (nat * list nat * list (list nat) * bool) := %s.
 Definition cls_bad := filter (fun r => match r with (k, seeds, cls, d) =>
   negb (Bool.eqb (existsb (fun s => existsb (fun C => cut_by_closure (fw k) (lfp (fw k)) s C) cls) seeds) d) end) cls_rows.
-Eval vm_compute in (st_bad, cert_bad, dyn_bad, prop_bad, cls_bad).
-""" % (coq_list(fw_rows), coq_list(st_rows), coq_list(cert_rows), coq_list(dyn_rows), coq_list(cls_rows))
+Definition up_rows : list (list (list Z) * list (nat * bool) * nat) := %s.
+Definition up_code (r : up_result) : nat := match r with UpConflict => 0 | UpModel => 1 | UpOpen => 2 end.
+Definition up_bad := filter (fun r => match r with (cls, a, d) => negb (Nat.eqb (up_code (up_run cls a)) d) end) up_rows.
+Eval vm_compute in (st_bad, cert_bad, dyn_bad, prop_bad, cls_bad, up_bad).
+""" % (coq_list(fw_rows), coq_list(st_rows), coq_list(cert_rows), coq_list(dyn_rows), coq_list(cls_rows), coq_list(up_rows))
     d = os.path.join(ROOT, "coq", "scratch")
     os.makedirs(d, exist_ok=True)
     open(os.path.join(d, "poly_compare.v"), "w").write(v)
     p = subprocess.run("timeout 1200 coqc -Q theories Crusta scratch/poly_compare.v", shell=True, cwd=os.path.join(ROOT, "coq"),
                        stdout=subprocess.PIPE, stderr=subprocess.STDOUT, universal_newlines=True)
     out = " ".join(p.stdout.split())
-    ok = p.returncode == 0 and "= ([], [], [], [], [])" in out
+    ok = p.returncode == 0 and "= ([], [], [], [], [], [])" in out
     print("cert rows accepted by python: %d" % sum(1 for r in cert_rows if r.endswith("true)")))
-    print("frameworks %d, status decisions %d (undecided %d, NO %d, YES %d), returned sets %d, dynamic decisions %d: %s (class partitions %d, cut %d)"
+    print("frameworks %d, status decisions %d (undecided %d, NO %d, YES %d), returned sets %d, dynamic decisions %d: %s (class partitions %d, cut %d; propagations %d: conflict %d, model %d, open %d)"
           % (count, len(st_rows), hist[0], hist[1], hist[2], len(cert_rows), len(dyn_rows), "all equal" if ok else "DIFFERENCE",
-             len(cls_rows), sum(1 for r in cls_rows if r.endswith("true)"))))
+             len(cls_rows), sum(1 for r in cls_rows if r.endswith("true)")), len(up_rows), up_hist["conflict"], up_hist["model"], up_hist["open"]))
     if not ok:
         print(p.stdout[-3000:])
         sys.exit(1)
